@@ -41,6 +41,7 @@ def run(ck, tier):
     ck.rule("R-C12-tile", "the end of the input is not special: the plain-English front end never takes a token out again after laying the tokens end to end, so a paragraph at the end of the text has the same tokens as the same paragraph followed by more text (rule instance of R-C02-tile)")
     ck.rule("R-C12-stale", "a condensation in one paragraph must not shift the token indices used for a condensation in a later one: indices collected before an earlier removal are re-based by exactly the tokens it removes (rule instances of R-C02-stale)")
     ck.rule("R-C12-lexlocal", "token boundaries are decided from the front: no function in lex_token's table (nor a helper that receives the uncut remaining input) scans that input from its end (rev / rposition / rfind / last / ends_with / next_back ...); otherwise text arbitrarily far behind a token - in a later paragraph - changes how it is lexed")
+    ck.rule("R-C12-lookahead", "a lexer looks ahead only as far as its own line: a forward search over the uncut remaining input (position / find / any, take_while / skip_while / all) ends at a line break at the latest - its predicate is decided by the character '\\n' - or the function gives up (returns None) when the search fails; a search that runs to the end of the text and merely takes another branch when nothing is found lets a character in a later paragraph decide how this token is lexed")
     ck.rule("R-C12-window", "a hand-written rule that slides a window of several tokens over the whole document (not inside a chunk, sentence or paragraph) requires every token of the window to be of a particular kind before it reports: a window position that is only tested negatively, or not at all, can be the break that closes the previous paragraph - and does not exist at the start of the document - so the paragraph's lints depend on whether something precedes it")
     ck.rule("R-C12-carry", "a hand-written rule that walks the document unit by unit (iter_sentences / iter_paragraphs / iter_chunks) carries nothing from one unit to the next except its result vector: a local that is set in one iteration and decides something in the next makes a paragraph's lints depend on the paragraphs before it (and treats the first unit of the document differently from the first unit of every later paragraph)")
     ck.not_decided += ["whether each of the 24 hand-written rule structs ignores everything beyond a paragraph break (they read neighbouring tokens by index)", "document-level passes other than the condensing ones", "quote pairing (excluded by the property's premise)"]
@@ -231,6 +232,51 @@ def _unbounded_roots(f, pv, op, unb, depth=0, seen=None):
     return False
 
 
+FWD_STOP = {"position", "find", "any", "find_map"}        # stop at the first element the predicate accepts
+FWD_WHILE = {"take_while", "skip_while", "all"}             # go on while the predicate accepts
+
+
+def _lookahead_site(ck, p, f, pv, bi, t, m, ords):
+    from .c01 import eval_char_pred
+    rule = "R-C12-lookahead"
+    k0 = "%s:%s" % (keyname(p, f), m)
+    ords[k0] = ords.get(k0, 0) + 1
+    key = k0 if ords[k0] == 1 else "%s#%d" % (k0, ords[k0])
+    if (f.name, bi) in ords:
+        return
+    ords[(f.name, bi)] = True
+    clos = [o for o in pv.trace_operand(t["args"][1]) if o[0] == "agg" and o[1] == "closure"]
+    c = p.fns.get(clos[0][2]) if len(clos) == 1 else None
+    if c is None:
+        ck.undecided(rule, key, f.loc(t["ln"]), "the predicate of this search over the uncut input is not a closure defined here")
+        return
+    try:
+        nl = eval_char_pred(p, c, ord("\n"))
+        letter = eval_char_pred(p, c, ord("a"))
+    except Stuck as e:
+        ck.undecided(rule, key, f.loc(t["ln"]), "the predicate of this search over the uncut input is beyond the evaluator (%s)" % e)
+        return
+    if m in FWD_STOP and nl:
+        ck.proved(rule, key, f.loc(t["ln"]), "%s over the uncut input stops at a line break at the latest" % m)
+        return
+    if m in FWD_WHILE and not nl:
+        ck.proved(rule, key, f.loc(t["ln"]), "%s over the uncut input ends at a line break at the latest" % m)
+        return
+    if m in FWD_WHILE and nl and not letter:
+        ck.proved(rule, key, f.loc(t["ln"]), "%s over the uncut input accepts line breaks but no letter: a run of blank characters, which is the token itself" % m)
+        return
+    # the search can run to the end of the text: what happens when it finds nothing?
+    dest = t["dest"][0] if t.get("dest") else None
+    gives_up = False
+    for b2, t2 in f.calls():
+        if method(t2) == "branch" and t2["args"] and any(o[0] == "call" and o[1] == bi for o in flatten(pv.trace_operand(t2["args"][0]))):
+            gives_up = True
+    if gives_up and m in FWD_STOP:
+        ck.undecided(rule, key, f.loc(t["ln"]), "%s searches the whole remaining text (its predicate does not stop at a line break); when nothing is found the function returns None - whether a hit far behind the token is rejected just the same is not decided" % m)
+    else:
+        ck.refuted(rule, key, f.loc(t["ln"]), "%s searches the whole remaining text - its predicate does not stop at a line break - and the function goes on lexing whichever way the search ends: whether the character occurs somewhere later in the document, e.g. in another paragraph, decides how this token is lexed" % m)
+
+
 def _lexlocal(ck, p, byk):
     from .c01 import _fnitem_of
     rule = "R-C12-lexlocal"
@@ -253,6 +299,8 @@ def _lexlocal(ck, p, byk):
     todo = [(nm, frozenset([1])) for nm in table]
     done = {}
     n_scans = 0
+    n_fwd = [0]
+    fwd_ord = {}
     while todo:
         nm, unb = todo.pop()
         if nm in done and unb <= done[nm]:
@@ -274,6 +322,9 @@ def _lexlocal(ck, p, byk):
                     n_scans += 1
                     if _unbounded_roots(body, pv, t["args"][0], unb):
                         bad.append((m, t["ln"]))
+                if m in FWD_STOP | FWD_WHILE and len(t["args"]) >= 2 and _unbounded_roots(body, pv, t["args"][0], unb):
+                    n_fwd[0] += 1
+                    _lookahead_site(ck, p, body, pv, bi, t, m, fwd_ord)
                 inst = t["f"].get("inst") or ""
                 h = p.fns.get(inst)
                 if h is not None and h.name.startswith("harper_core::lexing::") and h.get("kind") not in ("Closure",):
@@ -285,6 +336,7 @@ def _lexlocal(ck, p, byk):
             ck.refuted(rule, key, g.loc(bad[0][1]), "scans the uncut remaining input from its end (%s): the token it returns depends on text arbitrarily far behind it, e.g. in the next paragraph" % ", ".join(sorted({m for m, _ in bad})))
         else:
             ck.proved(rule, key, g.span, "no scan from the end of the uncut input (parameters holding it: %s)" % sorted(unb))
+    ck.floor("R-C12-lookahead", "forward searches over the uncut remaining input in the lexers", n_fwd[0], 3)
     ck.extra["lexlocal_functions"] = len(done)
     ck.extra["lexlocal_backscans_seen"] = n_scans
 
